@@ -97,6 +97,7 @@ def main():
     if not units and not kani_files:
         print("no units registered for", pid)
         return 2
+    vrun.BUILD = os.path.join(VERIF, "build", "verus", pid + ("_scratch%d" % os.getpid() if os.environ.get("RXRUST_REPO") else ""))
     results = vrun.run_units(units) if units else []
     known = [k for k in load_known() if k["property"] == pid]
     base_p = os.path.join(VERIF, "baseline", "obligations.json")
@@ -200,8 +201,10 @@ def main():
     allow_p = os.path.join(VERIF, "contracts", "assumptions.allow")
     allow = json.load(open(allow_p)) if os.path.exists(allow_p) else {}
 
-    os.makedirs(os.path.join(VERIF, "evidence"), exist_ok=True)
-    os.makedirs(os.path.join(VERIF, "replay", pid), exist_ok=True)
+    EVD = os.environ.get("VERIF_EVIDENCE_DIR", os.path.join(VERIF, "evidence"))
+    RPD = os.environ.get("VERIF_REPLAY_DIR", os.path.join(VERIF, "replay"))
+    os.makedirs(EVD, exist_ok=True)
+    os.makedirs(os.path.join(RPD, pid), exist_ok=True)
     exit_code = 0
     out_lines = []
     for (k, ob, f) in known_hits:
@@ -212,7 +215,7 @@ def main():
         if key in seen:
             continue
         seen.add(key)
-        rp = os.path.join(VERIF, "replay", pid, re.sub(r"\W+", "_", ob) + ".txt")
+        rp = os.path.join(RPD, pid, re.sub(r"\W+", "_", ob) + ".txt")
         with open(rp, "w") as fh:
             fh.write("property: %s\nfailed obligation: %s\nkind: %s\nfailed clause: %s\n" % (pid, ob, f["kind"], f["clause"]))
             fh.write("verifier: verus (z3); no counterexample is produced by this back end: no-failing-input-found\n")
@@ -221,7 +224,7 @@ def main():
         out_lines.append("VIOLATION property=%s replay=%s obligation=%s kind=%s no-failing-input-found" % (pid, rp, ob, f["kind"].replace(" ", "-")))
         exit_code = 1
     for (ob, kr) in kviol:
-        rp = os.path.join(VERIF, "replay", pid, re.sub(r"\W+", "_", ob) + ".rs")
+        rp = os.path.join(RPD, pid, re.sub(r"\W+", "_", ob) + ".rs")
         with open(rp, "w") as fh:
             fh.write("// property: %s\n// failed obligation: %s  (%s)\n// failed checks: %s\n" % (pid, ob, kr["doc"], "; ".join(kr["failed_checks"])))
             fh.write("// native replay of the counterexample on the real code: %s\n" % kr.get("native_replay", "not run"))
@@ -273,7 +276,19 @@ def main():
         wall_s=round(time.time() - t0, 2),
         violations=len(seen),
     )
-    json.dump(ev, open(os.path.join(VERIF, "evidence", pid + ".json"), "w"), indent=1)
+    if a.tier == "thorough" and not os.environ.get("RXRUST_REPO"):
+        # thorough tier: mutation self-test of this check against the seeded breaking changes
+        import subprocess
+        st = subprocess.run([sys.executable, os.path.join(VERIF, "engine", "selftest.py"), pid], capture_output=True, text=True)
+        try:
+            stj = json.loads(st.stdout)
+        except Exception:
+            stj = {"error": (st.stdout + st.stderr)[-500:]}
+        ev["coverage"]["mutation_selftest"] = dict(
+            seeds=len(stj), detected=len([1 for v in stj.values() if isinstance(v, dict) and v.get("exit") == 1]), detail=stj,
+            explanation="each seeded property-breaking change (/verif/seeded) applied to a scratch copy of /repo; detected = this check exits 1")
+        ev["wall_s"] = round(time.time() - t0, 2)
+    json.dump(ev, open(os.path.join(EVD, pid + ".json"), "w"), indent=1)
     for l in out_lines:
         print(l)
     for u in undecided:
